@@ -1401,7 +1401,8 @@ static int cfg_parse_internal(cfg_t *cfg, int level, int force_state, cfg_opt_t 
 				goto error;
 			}
 
-			if (opt && is_set(CFGF_DEPRECATED, opt->flags))
+			/* not for a default value being set up (force_opt) */
+			if (opt && opt != force_opt && is_set(CFGF_DEPRECATED, opt->flags))
 				cfg_handle_deprecated(cfg, opt);
 
 			if (comment)
@@ -1415,7 +1416,7 @@ static int cfg_parse_internal(cfg_t *cfg, int level, int force_state, cfg_opt_t 
 
 		switch (state) {
 		case 0:	/* expecting an option name */
-			if (opt && is_set(CFGF_DEPRECATED, opt->flags))
+			if (opt && opt != force_opt && is_set(CFGF_DEPRECATED, opt->flags))
 				cfg_handle_deprecated(cfg, opt);
 
 			switch (tok) {
